@@ -19,7 +19,6 @@ Violations are keyed by a minimal failing body (single lexemes are tried alone a
 """
 import html.entities
 import json
-import multiprocessing
 import os
 import random
 import re
@@ -285,6 +284,11 @@ def run(ctx):
     quick = ctx.tier == "quick"
     t0 = time.time()
     alpha = "opaque" if quick else "structural"
+    rc = tlc.run(ctx, "Opaque", CFG % {"alpha": "opaque", "k": 1, "emit": 9}, name="opaque-cov", deadlock=False,
+                 coverage=True, timeout=300)
+    cov = W.coverage_of(rc)
+    if not rc.ok or cov.get("Extend", [0, 0])[1] == 0:
+        ctx.machinery("Opaque.tla: action Extend never taken on the coverage configuration")
     r, cases = generate(ctx, alpha, 2)
     states, trans = r.distinct, r.generated
     nsim = 0
@@ -315,26 +319,21 @@ def run(ctx):
     jobs = [(i, lang if quick else W.LANGS[(ctx.seed + i) % len(W.LANGS)], ch, ctx.scratch,
              (4, ctx.seed % 4) if quick else None)
             for i, ch in enumerate(chunks(indexed, ctx.ncpu * 3)) if ch]
-    pool = multiprocessing.get_context("fork").Pool(ctx.ncpu)
     fails = []
     nparse = nskip = nround = nontrivial = 0
-    try:
-        for f, n, s, rt, nt in pool.imap_unordered(_worker, jobs):
-            fails += f
-            nparse += n
-            nskip += s
-            nround += rt
-            nontrivial += nt
-    finally:
-        pool.close()
-        pool.join()
+    for f, n, s_, rt, nt in W.pmap(ctx, _worker, jobs):
+        fails += f
+        nparse += n
+        nskip += s_
+        nround += rt
+        nontrivial += nt
     ctx.note("generation %.0fs, %d parses + %d round trips in %.0fs" % (t1 - t0, nparse, nround, time.time() - t1))
     for f in sorted(fails, key=lambda f: (len(f["case"]["body"]), f["cid"])):
         ctx.violation(key_of(f), what_of(f), {"case": f["case"], "mode": f["mode"], "lang": f["lang"],
                                               "first_seen_in": f.get("seen_in")})
     ctx.set_cover(evaluations=nparse + nround, distinct_nontrivial=nontrivial, exhaustive=True,
                   cases=len(cases), parses=nparse, round_trips=nround, simulated_3_lexeme_cases=nsim,
-                  body_alphabet=len(atoms), outside_atomwise_denotation=nskip, states=states, transitions=trans,
+                  body_alphabet=len(atoms), action_coverage=cov, outside_atomwise_denotation=nskip, states=states, transitions=trans,
                   rule="every (tag, context, body) Opaque.tla generates — 6 tags x 6 contexts x all bodies of <= 2 lexemes over "
                        "%d body lexemes%s — parsed with the production database (and without one in the plain contexts%s), tree "
                        "projected to (count, text, shape) and compared with the spec's denotation; plus the uniq round trip; "
